@@ -131,6 +131,13 @@ func (e *Eval) Prepare(flags ...[]byte) error {
 	// slate - otherwise the program we are about to compile would be
 	// appended to the one which the previous call produced.
 	//
+	//
+	// If this compilation fails the machine we made the last time - if
+	// there was one - keeps running its own program, and our constants,
+	// instructions and functions must keep describing that program (Dump
+	// relies on it), so we remember them.
+	//
+	oldConstants, oldInstructions, oldFunctions := e.constants, e.instructions, e.functions
 	e.constants = nil
 	e.instructions = nil
 	e.functions = make(map[string]environment.UserFunction)
@@ -141,21 +148,21 @@ func (e *Eval) Prepare(flags ...[]byte) error {
 	err = e.compile(program)
 
 	//
-	// If there were errors then return them.
-	//
-	if err != nil {
-		return err
-	}
-
-	//
 	// The operands of our instructions are sixteen bits wide, so that
 	// is the limit for jump-targets, and for references to constants.
 	//
 	// A program which is larger than that cannot be represented, rather
 	// than silently truncating offsets we refuse it.
 	//
-	err = e.checkLimits()
+	if err == nil {
+		err = e.checkLimits()
+	}
+
+	//
+	// If there were errors then return them.
+	//
 	if err != nil {
+		e.constants, e.instructions, e.functions = oldConstants, oldInstructions, oldFunctions
 		return err
 	}
 
